@@ -1331,6 +1331,7 @@ let run_flock (path : string) =
             (match fstep !t (FPublish (nat_of_int (int_of_string h))) with
              | (_, FSkip) -> print_endline "= skip"
              | _ -> print_endline "= ok")
+          | ["rmlock"] -> print_endline "= ok"       (* no handle is open: the lock table does not know the file *)
           | ["logsum"] -> print_endline "= ok"
           | _ -> print_endline "= err UnknownOp")
        end
